@@ -111,7 +111,13 @@ fn sync_model_from_machine(e: &mut Emu, m: &mut RefMem, m128: bool) {
 /// One lock-step run. `cfg`: m128, seed, steps. Returns the first discrepancy the caller's property
 /// judges, as a `Fail` with site `<prefix>.lockstep_clock` / `.lockstep_frames`.
 pub fn run(m128: bool, seed: u64, steps: usize, judge: Judge, prefix: &str, ctx: &mut RunCtx) -> Result<(), Fail> {
-    let cfg = MCfg { m128, ..Default::default() };
+    // sound / device settings are irrelevant to time keeping: derived from the seed
+    let dev = (seed >> 40) & 0xFF;
+    let cfg = if dev & 0x80 != 0 {
+        MCfg { m128, ..Default::default() }
+    } else {
+        MCfg { m128, sound: dev & 1 != 0, beeper: dev & 2 != 0, ay: dev & 4 != 0, kempston: dev & 8 != 0, mouse: dev & 16 != 0, rate: [44100usize, 8000, 384000, 22050][(dev as usize >> 5) & 3], ..Default::default() }
+    };
     let ula = RefUla::new(m128);
     let frame = ula.frame;
     let machine = if m128 { "128k" } else { "48k" };
